@@ -808,6 +808,214 @@ theorem duration_samples (wv : Wav) (hwv : Whole wv) : QTime.eqv wv.duration ⟨
 /-- the sample count is the length of the decoded list -/
 theorem nsamples_samples (wv : Wav) : wv.samples.length = wv.nsamples := unpack_length _ _
 
+/-! ## 6b. all non-negative times (also beyond the end of the recording); negative times -/
+
+/-- a non-negative time (any magnitude: also beyond the end of the recording) -/
+def NonNeg (t : QTime) : Prop := 0 < t.den ∧ 0 ≤ t.num
+instance (t : QTime) : Decidable (NonNeg t) := inferInstanceAs (Decidable (_ ∧ _))
+
+theorem InDur.nonNeg {wv : Wav} {t : QTime} (h : InDur wv t) : NonNeg t := ⟨h.1, h.2.1⟩
+
+theorem min_mul_right (w k a : Nat) : min (a * w) (k * w) = min a k * w := by
+  by_cases h : a ≤ k
+  · rw [Nat.min_eq_left h, Nat.min_eq_left (Nat.mul_le_mul_right w h)]
+  · have hk : k ≤ a := by omega
+    rw [Nat.min_eq_right hk, Nat.min_eq_right (Nat.mul_le_mul_right w hk)]
+
+theorem pyClamp_nat (w k : Nat) (f : List UInt8) (hk : f.length = k * w) (c : Nat) :
+    pyClamp f.length ((c * w : Nat) : Int) = min c k * w := by
+  unfold pyClamp
+  rw [if_neg (by omega), Int.toNat_natCast, hk, min_mul_right]
+
+theorem take_min_length {α} (l : List α) (a k : Nat) (hl : l.length = k) : l.take (min a k) = l.take a := by
+  by_cases h : a ≤ k
+  · rw [Nat.min_eq_left h]
+  · rw [Nat.min_eq_right (by omega), List.take_of_length_le (by omega), List.take_of_length_le (by omega)]
+
+theorem drop_min_length {α} (l : List α) (a k : Nat) (hl : l.length = k) : l.drop (min a k) = l.drop a := by
+  by_cases h : a ≤ k
+  · rw [Nat.min_eq_left h]
+  · rw [Nat.min_eq_right (by omega), List.drop_of_length_le (by omega), List.drop_of_length_le (by omega)]
+
+theorem drop_take_min {α} (l : List α) (a b k : Nat) (hl : l.length = k) :
+    (l.drop (min a k)).take (min b k - min a k) = (l.drop a).take (b - a) := by
+  rw [drop_min_length l a k hl]
+  by_cases ha : a ≤ k
+  · rw [Nat.min_eq_left ha]
+    by_cases hb : b ≤ k
+    · rw [Nat.min_eq_left hb]
+    · rw [Nat.min_eq_right (by omega), List.take_of_length_le (by rw [List.length_drop]; omega),
+        List.take_of_length_le (by rw [List.length_drop]; omega)]
+  · rw [List.drop_of_length_le (by omega)]; simp
+
+/-- byte level, **any non-negative aligned indices** (also beyond the end of the byte string, where Python
+clamps) on a byte string of whole samples -/
+theorem nonneg_delete (w : Nat) (hw : 0 < w) (f : List UInt8) (k : Nat) (hk : f.length = k * w) (a b : Nat) :
+    unpack w (deleteB f ((a * w : Nat) : Int) ((b * w : Nat) : Int)) = (unpack w f).take a ++ (unpack w f).drop b := by
+  have hlen : (unpack w f).length = k := by rw [unpack_length, hk, Nat.mul_div_cancel _ hw]
+  have ha : min a k * w ≤ f.length := by rw [hk]; exact Nat.mul_le_mul_right w (Nat.min_le_right _ _)
+  have hb : min b k * w ≤ f.length := by rw [hk]; exact Nat.mul_le_mul_right w (Nat.min_le_right _ _)
+  unfold deleteB sliceTo sliceFrom
+  rw [pyClamp_nat w k f hk a, pyClamp_nat w k f hk b,
+    unpack_append w (min a k) hw _ _ (by rw [List.length_take]; omega), unpack_take w _ hw f ha,
+    unpack_drop w _ hw f hb, take_min_length _ a k hlen, drop_min_length _ b k hlen]
+
+theorem nonneg_insert (w : Nat) (hw : 0 < w) (f g : List UInt8) (k : Nat) (hk : f.length = k * w)
+    (hg : w ∣ g.length) (a : Nat) :
+    unpack w (insertB f ((a * w : Nat) : Int) g) = (unpack w f).take a ++ unpack w g ++ (unpack w f).drop a := by
+  have hlen : (unpack w f).length = k := by rw [unpack_length, hk, Nat.mul_div_cancel _ hw]
+  have ha : min a k * w ≤ f.length := by rw [hk]; exact Nat.mul_le_mul_right w (Nat.min_le_right _ _)
+  obtain ⟨m, hm⟩ := hg
+  unfold insertB sliceTo sliceFrom
+  rw [pyClamp_nat w k f hk a]
+  have hl1 : (f.take (min a k * w)).length = min a k * w := by rw [List.length_take]; omega
+  have hl2 : (f.take (min a k * w) ++ g).length = (min a k + m) * w := by
+    rw [List.length_append, hl1, hm, Nat.add_mul, Nat.mul_comm w m]
+  rw [unpack_append w (min a k + m) hw _ _ hl2, unpack_append w (min a k) hw _ _ hl1, unpack_take w _ hw f ha,
+    unpack_drop w _ hw f ha, take_min_length _ a k hlen, drop_min_length _ a k hlen]
+
+theorem nonneg_getFrames (w : Nat) (hw : 0 < w) (f : List UInt8) (k : Nat) (hk : f.length = k * w) (a b : Nat) :
+    unpack w (getB f ((a * w : Nat) : Int) ((b * w : Nat) : Int)) = ((unpack w f).drop a).take (b - a) := by
+  have hlen : (unpack w f).length = k := by rw [unpack_length, hk, Nat.mul_div_cancel _ hw]
+  have ha : min a k * w ≤ f.length := by rw [hk]; exact Nat.mul_le_mul_right w (Nat.min_le_right _ _)
+  have hb : min b k * w ≤ f.length := by rw [hk]; exact Nat.mul_le_mul_right w (Nat.min_le_right _ _)
+  have h := aligned_getFrames w hw f ((min a k * w : Nat) : Int) ((min b k * w : Nat) : Int)
+    ⟨(min a k : Nat), by rw [Int.natCast_mul, Int.mul_comm]⟩ ⟨(min b k : Nat), by rw [Int.natCast_mul, Int.mul_comm]⟩
+    (by omega) (by omega) (by omega) (by omega)
+  have e : ∀ c : Nat, (((c * w : Nat) : Int) / (w : Int)).toNat = c := by
+    intro c; rw [Int.natCast_mul, Int.mul_ediv_cancel _ (by omega), Int.toNat_natCast]
+  rw [e, e, drop_take_min _ a b k hlen] at h
+  rw [← h]
+  unfold getB slice
+  rw [pyClamp_nat w k f hk a, pyClamp_nat w k f hk b, pyClamp_nat w k f hk (min a k), pyClamp_nat w k f hk (min b k)]
+  simp [Nat.min_assoc]
+
+/-- the sample index of a non-negative time is a natural number, the byte index is that number of samples -/
+theorem index_nat (wv : Wav) (t : QTime) (ht : NonNeg t) :
+    ∃ A : Nat, sampleAtTime t wv.rate = A ∧ wv.index t = ((A * wv.width : Nat) : Int) := by
+  have h0 : 0 ≤ sampleAtTime t wv.rate := roundHalfEven_nonneg _ _ ht.1 (Int.mul_nonneg ht.2 (by omega))
+  obtain ⟨A, hA⟩ := Int.eq_ofNat_of_zero_le h0
+  exact ⟨A, hA, by unfold Wav.index indexAtTime; rw [hA, Int.natCast_mul]⟩
+
+/-- **getFrames / getSamples for every pair of non-negative times** — also beyond the end of the recording
+(Python's slice clamps: the samples from the start index to the end of the recording) and for an end before
+the start (nothing) -/
+theorem getFrames_samples_nonneg (wv : Wav) (hwv : Whole wv) (s e : QTime) (hs : NonNeg s) (he : NonNeg e) :
+    unpack wv.width (wv.getFrames s e) =
+      (wv.samples.drop (sampleAtTime s wv.rate).toNat).take
+        ((sampleAtTime e wv.rate).toNat - (sampleAtTime s wv.rate).toNat) := by
+  obtain ⟨hw, k, hk⟩ := hwv
+  obtain ⟨A, hA, hiA⟩ := index_nat wv s hs
+  obtain ⟨B, hB, hiB⟩ := index_nat wv e he
+  unfold Wav.getFrames Wav.samples
+  rw [hiA, hiB, hA, hB, Int.toNat_natCast, Int.toNat_natCast]
+  exact nonneg_getFrames wv.width hw wv.frames k (by rw [hk, Nat.mul_comm]) A B
+
+/-- … and `getSamples` never raises there -/
+theorem getSamples_ok_nonneg (wv : Wav) (hwv : Whole wv) (hk : knownWidth wv.width = true) (s e : QTime)
+    (hs : NonNeg s) (he : NonNeg e) :
+    wv.getSamples s e = .ok ((wv.samples.drop (sampleAtTime s wv.rate).toNat).take
+        ((sampleAtTime e wv.rate).toNat - (sampleAtTime s wv.rate).toNat)) := by
+  have hlen : (wv.getFrames s e).length % wv.width = 0 :=
+    Nat.mod_eq_zero_of_dvd (getB_whole _ hwv.1 _ hwv.2 _ _ (index_aligned _ _ _) (index_aligned _ _ _))
+  unfold Wav.getSamples convertFromBytes
+  rw [← getFrames_samples_nonneg wv hwv s e hs he]
+  simp [hk, hlen]
+
+/-- **deleteSegment for every pair of non-negative times**: beyond the end nothing more is removed -/
+theorem deleteSegment_samples_nonneg (wv : Wav) (hwv : Whole wv) (s e : QTime) (hs : NonNeg s) (he : NonNeg e) :
+    (wv.deleteSegment s e).samples =
+      wv.samples.take (sampleAtTime s wv.rate).toNat ++ wv.samples.drop (sampleAtTime e wv.rate).toNat := by
+  obtain ⟨hw, k, hk⟩ := hwv
+  obtain ⟨A, hA, hiA⟩ := index_nat wv s hs
+  obtain ⟨B, hB, hiB⟩ := index_nat wv e he
+  unfold Wav.deleteSegment Wav.samples
+  simp only
+  rw [hiA, hiB, hA, hB, Int.toNat_natCast, Int.toNat_natCast]
+  exact nonneg_delete wv.width hw wv.frames k (by rw [hk, Nat.mul_comm]) A B
+
+/-- **insert for every non-negative time**: beyond the end the frames are appended -/
+theorem insert_samples_nonneg (wv : Wav) (hwv : Whole wv) (t : QTime) (ht : NonNeg t) (g : List UInt8)
+    (hg : wv.width ∣ g.length) :
+    (wv.insert t g).samples =
+      wv.samples.take (sampleAtTime t wv.rate).toNat ++ unpack wv.width g ++
+        wv.samples.drop (sampleAtTime t wv.rate).toNat := by
+  obtain ⟨hw, k, hk⟩ := hwv
+  obtain ⟨A, hA, hiA⟩ := index_nat wv t ht
+  unfold Wav.insert Wav.samples
+  simp only
+  rw [hiA, hA, Int.toNat_natCast]
+  exact nonneg_insert wv.width hw wv.frames g k (by rw [hk, Nat.mul_comm]) hg A
+
+theorem getSubwav_samples_nonneg (wv : Wav) (hwv : Whole wv) (s e : QTime) (hs : NonNeg s) (he : NonNeg e) :
+    (wv.getSubwav s e).samples =
+      (wv.samples.drop (sampleAtTime s wv.rate).toNat).take
+        ((sampleAtTime e wv.rate).toNat - (sampleAtTime s wv.rate).toNat) ∧
+    (wv.getSubwav s e).width = wv.width ∧ (wv.getSubwav s e).rate = wv.rate :=
+  ⟨getFrames_samples_nonneg wv hwv s e hs he, rfl, rfl⟩
+
+/-- **replaceSegment with a start inside the recording and any non-negative end** -/
+theorem replaceSegment_samples_nonneg (wv : Wav) (hwv : Whole wv) (s e : QTime) (hs : InDur wv s) (he : NonNeg e)
+    (g : List UInt8) (hg : wv.width ∣ g.length) :
+    (wv.replaceSegment s e g).samples =
+      wv.samples.take (sampleAtTime s wv.rate).toNat ++ unpack wv.width g ++
+        wv.samples.drop (sampleAtTime e wv.rate).toNat := by
+  have hsr := (sample_range wv hwv s hs).2
+  have hd := deleteSegment_samples_nonneg wv hwv s e hs.nonNeg he
+  have hw1 : Whole (wv.deleteSegment s e) :=
+    ⟨hwv.1, deleteB_whole _ hwv.1 _ hwv.2 _ _ (index_aligned _ _ _) (index_aligned _ _ _)⟩
+  have hi := insert_samples_nonneg (wv.deleteSegment s e) hw1 s hs.nonNeg g hg
+  have htl : (wv.samples.take (sampleAtTime s wv.rate).toNat).length = (sampleAtTime s wv.rate).toNat := by
+    rw [List.length_take, nsamples_samples]
+    exact Nat.min_eq_left (Int.toNat_le.2 hsr)
+  unfold Wav.replaceSegment
+  rw [hi, hd]
+  show List.take (sampleAtTime s wv.rate).toNat (_ ++ _) ++ unpack wv.width g ++
+    List.drop (sampleAtTime s wv.rate).toNat (_ ++ _) = _
+  rw [List.take_left' htl, List.drop_left' htl]
+
+/-! ### negative times, and a start after the end: the statement does **not** extend there -/
+
+/-- **negative times count from the END of the recording** (Python's negative slice bounds): the window
+`[-0.25 s, 1 s]` of the 1-second recording `exWav` is its last two samples (not the whole recording), the
+window `[-0.25 s, 0.5 s]` is empty (not the first four samples), and the window `[0.25 s, -0.25 s]`, whose
+end lies before its start, holds four samples.  Outside the quantifier `[0, duration]`, inside the
+statement's "arbitrary real-valued times". -/
+theorem getFrames_negative_counterexample :
+    exWav.getFrames ⟨-1, 4⟩ ⟨1, 1⟩ = [7, 8] ∧ exWav.getFrames ⟨-1, 4⟩ ⟨1, 2⟩ = [] ∧
+    exWav.getFrames ⟨1, 4⟩ ⟨-1, 4⟩ = [3, 4, 5, 6] := by decide
+
+/-- **`deleteSegment` with a negative start makes the recording longer**: `deleteSegment(-0.25, 0.5)` keeps
+`frames[:-2]` and appends `frames[4:]` — samples 5 and 6 occur twice; with a negative end it removes the
+samples up to two before the end -/
+theorem deleteSegment_negative_counterexample :
+    (exWav.deleteSegment ⟨-1, 4⟩ ⟨1, 2⟩).frames = [1, 2, 3, 4, 5, 6, 5, 6, 7, 8] ∧
+    (exWav.deleteSegment ⟨1, 2⟩ ⟨-1, 4⟩).frames = [1, 2, 3, 4, 7, 8] := by decide
+
+/-- `insert` at a negative time inserts before the last samples (here: two from the end), not at the start -/
+theorem insert_negative_counterexample :
+    (exWav.insert ⟨-1, 4⟩ [77]).frames = [1, 2, 3, 4, 5, 6, 77, 7, 8] := by decide
+
+/-- **inside `[0, duration]`: a start after the end.**  `deleteSegment(0.5, 0.25)` removes nothing and
+*duplicates* the samples between the two times (`frames[:4] + frames[2:]`: 8 samples before, 10 after);
+`replaceSegment` likewise.  This is what `deleteSegment_samples` says for `index s > index e`
+(`take i ++ drop j`); `getFrames` is empty there. -/
+theorem deleteSegment_reversed_counterexample :
+    (exWav.deleteSegment ⟨1, 2⟩ ⟨1, 4⟩).frames = [1, 2, 3, 4, 3, 4, 5, 6, 7, 8] ∧
+    (exWav.replaceSegment ⟨1, 2⟩ ⟨1, 4⟩ [77]).frames = [1, 2, 3, 4, 77, 3, 4, 5, 6, 7, 8] ∧
+    exWav.getFrames ⟨1, 2⟩ ⟨1, 4⟩ = [] ∧
+    InDur exWav ⟨1, 2⟩ ∧ InDur exWav ⟨1, 4⟩ ∧ Whole exWav := by decide
+
+/-- with an ordered pair of times nothing is ever duplicated: the result is never longer than the recording -/
+theorem deleteSegment_ordered_length (wv : Wav) (hwv : Whole wv) (s e : QTime) (hs : NonNeg s) (he : NonNeg e)
+    (hse : sampleAtTime s wv.rate ≤ sampleAtTime e wv.rate) :
+    (wv.deleteSegment s e).samples.length
+      = wv.samples.length - (min (sampleAtTime e wv.rate).toNat wv.samples.length
+          - min (sampleAtTime s wv.rate).toNat wv.samples.length) := by
+  rw [deleteSegment_samples_nonneg wv hwv s e hs he, List.length_append, List.length_take, List.length_drop]
+  have := Int.toNat_le_toNat hse
+  omega
+
 /-! ## 7. the file round trip over the abstract file -/
 
 theorem roundHalfEven_zero (den : Nat) (h : 0 < den) : roundHalfEven 0 den = 0 := by
@@ -886,16 +1094,15 @@ theorem query_all (f : WavFile) (hr : 0 < f.rate) (hw : 0 < f.width) (hk : known
     rw [Nat.min_eq_left hle]; exact Nat.mul_mod_left _ _
   simp [hk, hl', hu]
 
-/-- **`readFramesAtTime` (QueryWav, extractSubwav) and `Wav.getFrames` return the same bytes for every
-window** whose start lies inside the file (`0 ≤ s ≤ duration`, otherwise `setpos` raises) and whose end
-is not negative — on or off the sample grid, end before start (both empty), end beyond the file (both
-clamp), ragged data chunk included.  (Since the repair fedc16f both round *both* ends.) -/
-theorem query_eq_wav (f : WavFile) (s e : QTime) (hds : 0 < s.den) (hde : 0 < e.den)
-    (hs0 : 0 ≤ s.num) (hs1 : s ≤ f.duration) (he0 : 0 ≤ e.num) :
+/-- **`readFramesAtTime` (QueryWav, extractSubwav) and `Wav.getFrames` return the same bytes whenever
+`setpos` accepts the start index and the end index is not negative** — stated on the *indices*, with no
+hypothesis on the times themselves (a slightly negative start that rounds to sample 0 is included).  The
+complement on the start is exactly `query_start_out_of_range` (`wave.Error`); on a negative end index the
+two classes disagree: `query_negative_end_counterexample`. -/
+theorem query_eq_wav_index (f : WavFile) (s e : QTime)
+    (ha0 : 0 ≤ sampleAtTime s f.rate) (ha1 : sampleAtTime s f.rate ≤ f.nframes)
+    (hb0 : 0 ≤ sampleAtTime e f.rate) :
     readFramesAtTime f s e = .ok (Wav.getFrames ⟨f.width, f.rate, f.data⟩ s e) := by
-  have ha0 : 0 ≤ sampleAtTime s f.rate := roundHalfEven_nonneg _ _ hds (Int.mul_nonneg hs0 (by omega))
-  have ha1 : sampleAtTime s f.rate ≤ f.nframes := roundHalfEven_le _ _ hds _ hs1
-  have hb0 : 0 ≤ sampleAtTime e f.rate := roundHalfEven_nonneg _ _ hde (Int.mul_nonneg he0 (by omega))
   obtain ⟨A, hA⟩ := Int.eq_ofNat_of_zero_le ha0
   obtain ⟨B, hB⟩ := Int.eq_ofNat_of_zero_le hb0
   have p0 : roundHalfEven ((f.rate : Int) * s.num) s.den = A := by rw [Int.mul_comm]; exact hA
@@ -928,6 +1135,24 @@ theorem query_eq_wav (f : WavFile) (s e : QTime) (hds : 0 < s.den) (hde : 0 < e.
     have h2' : ¬ (((B - A : Nat) : Int) < 0) := by omega
     rw [hm]
     simp [h1', h2']
+
+/-- **`readFramesAtTime` (QueryWav, extractSubwav) and `Wav.getFrames` return the same bytes for every
+window** whose start lies inside the file (`0 ≤ s ≤ duration`, otherwise `setpos` raises) and whose end
+is not negative — on or off the sample grid, end before start (both empty), end beyond the file (both
+clamp), ragged data chunk included.  (Since the repair fedc16f both round *both* ends.) -/
+theorem query_eq_wav (f : WavFile) (s e : QTime) (hds : 0 < s.den) (hde : 0 < e.den)
+    (hs0 : 0 ≤ s.num) (hs1 : s ≤ f.duration) (he0 : 0 ≤ e.num) :
+    readFramesAtTime f s e = .ok (Wav.getFrames ⟨f.width, f.rate, f.data⟩ s e) :=
+  query_eq_wav_index f s e (roundHalfEven_nonneg _ _ hds (Int.mul_nonneg hs0 (by omega)))
+    (roundHalfEven_le _ _ hds _ hs1) (roundHalfEven_nonneg _ _ hde (Int.mul_nonneg he0 (by omega)))
+
+/-- **a negative end time: QueryWav and Wav disagree.**  `readFramesAtTime` reads `max(end - start, 0) = 0`
+frames, `Wav.getFrames` slices `frames[2:-2]` (a negative bound counts from the end): on the 8-sample
+recording at 8 Hz the window `[0.25 s, -0.25 s]` is empty through QueryWav and holds samples 3..6 through
+Wav.  (Outside `[0, duration]`; the empty answer is the one the statement describes.) -/
+theorem query_negative_end_counterexample :
+    readFramesAtTime ⟨1, 8, [1, 2, 3, 4, 5, 6, 7, 8]⟩ ⟨1, 4⟩ ⟨-1, 4⟩ = .ok [] ∧
+    Wav.getFrames ⟨1, 8, [1, 2, 3, 4, 5, 6, 7, 8]⟩ ⟨1, 4⟩ ⟨-1, 4⟩ = [3, 4, 5, 6] := by decide
 
 /-- hence **QueryWav.getSamples = Wav.getSamples** on the same window (same samples or the same
 `struct.error` / `KeyError`) -/
@@ -978,6 +1203,39 @@ theorem query_regression :
     readFramesAtTime ⟨1, 8, [1, 2, 3, 4, 5, 6, 7, 8, 9]⟩ ⟨1, 16⟩ ⟨13, 64⟩ = .ok [1, 2] ∧
     QueryWav.getFrames ⟨1, 8, [1, 2, 3, 4, 5, 6, 7, 8, 9]⟩ (some ⟨5, 16⟩) none = .ok [3, 4, 5, 6, 7, 8, 9] := by
   decide
+
+/-! ### the excluded cases of the round-trip statements are errors, not silent damage -/
+
+/-- `wave` accepts sample widths 1..4 and positive frame rates only: `Wav.save` raises `wave.Error`
+otherwise (so width 8, a key of `sampleWidthDict`, cannot be saved) -/
+theorem save_rejects (wv : Wav) (h : wv.width < 1 ∨ 4 < wv.width ∨ wv.rate = 0) : wv.save = .error .WaveError := by
+  unfold Wav.save
+  by_cases h1 : wv.width < 1 ∨ 4 < wv.width
+  · rw [if_pos h1]
+  · rw [if_neg h1, if_pos (by omega)]
+
+/-- a sample outside the width's range is rejected by `struct.pack` (`struct.error`) -/
+theorem convert_out_of_range (w : Nat) (hk : knownWidth w = true) (xs : List Int) (hx : ∃ x ∈ xs, ¬ InRange w x) :
+    convertToBytes xs w = .error .StructError := by
+  unfold convertToBytes
+  have : xs.all (fun x => decide (InRange w x)) = false := by
+    obtain ⟨x, hx, hn⟩ := hx
+    rw [List.all_eq_false]
+    exact ⟨x, hx, by simpa using hn⟩
+  simp [hk, this]
+
+/-- a byte string that does not hold whole samples is rejected by `struct.unpack` (`struct.error`) -/
+theorem convert_ragged (w : Nat) (hk : knownWidth w = true) (bs : List UInt8) (h : ¬ w ∣ bs.length) :
+    convertFromBytes bs w = .error .StructError := by
+  unfold convertFromBytes
+  have : bs.length % w ≠ 0 := fun h0 => h (Nat.dvd_of_mod_eq_zero h0)
+  simp [hk, this]
+
+/-- a width that is not a key of `sampleWidthDict` (e.g. 24-bit audio, width 3) raises `KeyError` -/
+theorem convert_unknown_width (w : Nat) (hk : knownWidth w = false) (bs : List UInt8) (xs : List Int) :
+    convertFromBytes bs w = .error .KeyError ∧ convertToBytes xs w = .error .KeyError := by
+  unfold convertFromBytes convertToBytes
+  simp [hk]
 
 /-! ## 8. non-vacuity and illustrations -/
 
